@@ -112,6 +112,48 @@ fn observe(seq: usize, w: usize, gen: usize, kidx: usize, key: &Key, mode: Mode,
     }
 }
 
+/// Layer A2, second phase: `threads` real threads expand all `keys` AT THE SAME TIME (released together by a
+/// barrier, each in its own seeded order), then the calling thread expands them once more. No baton: who runs
+/// when is decided by Miri's seeded scheduler (this entry point is only ever run inside Miri), so that code whose
+/// shared state is only safe one expansion at a time meets a real interleaving — and one that replays.
+pub fn run_concurrent(keys: &[Key], threads: usize, seed: u64) -> Vec<Obs> {
+    let barrier = std::sync::Arc::new(std::sync::Barrier::new(threads));
+    let keys_arc = std::sync::Arc::new(keys.to_vec());
+    let mut handles = Vec::new();
+    for w in 0..threads {
+        let b = barrier.clone();
+        let ks = keys_arc.clone();
+        handles.push(std::thread::spawn(move || {
+            let mut out = Vec::new();
+            // phase A, lockstep: every item is met by all threads at the same moment (a barrier before each):
+            // the first use of anything lazily built or grown on demand happens on several threads at once
+            for k in 0..ks.len() {
+                b.wait();
+                out.push(observe(k, w, 0, k, &ks[k], Mode::Catch, false));
+            }
+            // phase B, free running: each thread in an order of its own
+            let mut r = crate::rng::Rng::new(seed, 0xC0 + w as u64);
+            let mut order: Vec<usize> = (0..ks.len()).collect();
+            r.shuffle(&mut order);
+            b.wait();
+            // (a third of the items per thread: Miri interprets every thread on one core)
+            for (i, k) in order.into_iter().take((ks.len() + 2) / 3).enumerate() {
+                out.push(observe(ks.len() + i, w, 1, k, &ks[k], Mode::Catch, false));
+            }
+            out
+        }));
+    }
+    let mut out = Vec::new();
+    for h in handles {
+        out.extend(h.join().expect("concurrent worker"));
+    }
+    // phase C: afterwards, one thread alone
+    for (k, key) in keys.iter().enumerate() {
+        out.push(observe(k, threads, 2, k, key, Mode::Catch, false));
+    }
+    out
+}
+
 #[inline(never)]
 fn burn_stack(bytes: usize, f: &mut dyn FnMut()) {
     let mut pad = [0u8; 512];
